@@ -103,6 +103,16 @@ class Tracker:
     def exclude(self, label: str, n: int = 1) -> None:
         self.excluded[label] = self.excluded.get(label, 0) + n
 
+    def known(self, fid: str, message: str = "") -> bool:
+        """In-oracle known-finding handling: returns True (and counts the hit) when finding ``fid`` is listed as
+        "known" for this property, so the oracle can skip exactly that deviation and keep checking the rest of the
+        case; returns False otherwise (the oracle must then raise a Violation)."""
+        if fid in getattr(self, "_known_active", ()):
+            self.known_hits[fid] = self.known_hits.get(fid, 0) + 1
+            self.known_examples.setdefault(fid, {"case": self._cur_case, "message": message[:500]})
+            return True
+        return False
+
     def to_json(self) -> dict:
         return {
             "name": self.name,
@@ -241,6 +251,7 @@ class Check:
 
     def run_sub(self, sc: SubCheck) -> None:
         T = self.trackers.setdefault(sc.name, Tracker(sc.name))
+        T._known_active = set(self.known_active)
         t0 = time.time()
         try:
             if sc.enum is not None:
@@ -338,6 +349,7 @@ class Check:
         if sc is None:
             raise HarnessError(f"replay {path}: unknown subcheck {doc['subcheck']}")
         T = self.trackers.setdefault(sc.name, Tracker(sc.name))
+        T._known_active = set(self.known_active)
         try:
             self.run_case(sc, T, doc["case"])
         except Violation as v:
